@@ -103,7 +103,8 @@ def random_script(rng, n_clients: int, n_rounds: int, malformed: float = 0.03, f
             dest = rng.choice([0, 0, 0, 0, rng.choice(ids), rng.choice(ids), 100, 150, 200, 201, -1])
             host = rng.choice([0, 0, 0, 0, 0, 1, 5, 6, -1])
             size = rng.choice([0, 0, 1, 8, 104, 104, 65535 if big else 512])
-            pay = bytes([rng.randrange(256)]) * size
+            b0 = rng.randrange(256)
+            pay = bytes((b0 + 7 * i) % 256 for i in range(size))
             return s.rd(u, rng.choice(T + T + [cd.ALL_MESSAGE_TYPES, 7777]), pay, src=rng.choice([0, conn_guess[u], 33]), dest=dest,
                         dest_host=host, src_host=rng.choice([0, 2]))
         if r < 0.88:
@@ -151,7 +152,7 @@ def directed() -> Iterator[Tuple[str, G.Script]]:
         s.round([s.rd(2, cd.MT_SUBSCRIBE, G.p_i32(cd.MT_TIMING_MESSAGE))])
         s.round([s.rd(1, mt, b"abc")]); s.round(dt=1000); s.round(dt=1000)
         yield f"type_{mt}_then_timing", probe(s)
-    for nm in (b"\xc3\xa9", b"ok\xff", b"\x80" * 32, b"a\x00\xff"):
+    for nm in (b"\xc3\xa9", b"ok\xff", b"\x80" * 32, b"a\x00\xff", b"N" * 32, b"n" * 31):   # …, a name that fills the field
         s = G.Script(); s.accept(2)
         s.round([s.rd(1, cd.MT_CONNECT_V2, G.p_connect_v2(mod_id=12, name=nm))])
         s.round([s.rd(2, cd.MT_CONNECT, G.p_connect(), src=13)])
@@ -466,4 +467,4 @@ def subsets_scenarios() -> Iterator[Tuple[str, G.Script]]:
 
 def configs(rng, deep: bool) -> Dict[str, Any]:
     return dict(timecode=rng.random() < 0.3, log_level=rng.choice([100, 100, 100, 40, 30, 20, 10, 10]),
-                timing=rng.random() < 0.85, order=rng.choice(["fwd", "fwd", "rev"]))
+                timing=rng.random() < 0.85, order=rng.choice(["fwd", "fwd", "rev"]), debug=rng.random() < 0.2)
